@@ -95,9 +95,14 @@ def parse_flat(tokens):
 
 def eval_tree(t):
     if isinstance(t, tuple) and t and t[0] == "op":
-        a, b = eval_tree(t[2]), eval_tree(t[3])
+        a = eval_tree(t[2])
         if isinstance(a, batch.Err):
             return a
+        if t[1] == "&&" and a is False:
+            return False            # documented short-circuit: the right operand is not evaluated
+        if t[1] == "||" and a is True:
+            return True
+        b = eval_tree(t[3])
         if isinstance(b, batch.Err):
             return b
         if t[1] == "**" and abs(b) > 12:
